@@ -20,6 +20,7 @@ import (
 	"fmt"
 	"io"
 	"os"
+	"os/exec"
 	"os/signal"
 	"path/filepath"
 	"strings"
@@ -60,6 +61,16 @@ func main() {
 	if dir == "" {
 		dir = filepath.Dir(os.Args[0])
 	}
+	if os.Getenv("FAKEPLUGIN_HELPER") == "1" {
+		// helper mode: hold the inherited stderr open until told to stop
+		for i := 0; i < 750; i++ {
+			if _, err := os.Stat(filepath.Join(dir, "helpers.stop")); err == nil {
+				break
+			}
+			time.Sleep(200 * time.Millisecond)
+		}
+		os.Exit(0)
+	}
 	cwd, _ := os.Getwd()
 	start, _ := json.Marshal(map[string]any{"name": name, "argv": os.Args, "cwd": cwd, "pid": os.Getpid()})
 	if f, err := os.OpenFile(filepath.Join(dir, "starts.log"), os.O_APPEND|os.O_CREATE|os.O_WRONLY, 0o644); err == nil {
@@ -74,6 +85,17 @@ func main() {
 	if err := json.Unmarshal(sb, &sc); err != nil {
 		fmt.Fprintln(os.Stderr, "fakeplugin: bad script:", err)
 		os.Exit(3)
+	}
+	if sc.Helper {
+		exe, _ := os.Executable()
+		h := exec.Command(exe)
+		h.Env = append(os.Environ(), "FAKEPLUGIN_HELPER=1", "FAKEPLUGIN_DIR="+dir)
+		h.Stderr = os.Stderr
+		h.SysProcAttr = &syscall.SysProcAttr{Setsid: true}
+		if err := h.Start(); err != nil {
+			fmt.Fprintln(os.Stderr, "fakeplugin: helper:", err)
+			os.Exit(3)
+		}
 	}
 	tr := &plug.Transcript{Name: name, Argv: os.Args, Cwd: cwd, End: "eof"}
 	finish := func(code int) {
